@@ -315,7 +315,64 @@ def run_purity(case):
     return Outcome(None, len(set(ran)) >= 3, ["ops_%d" % len(set(ran))])
 
 
+def strat_points(tier):
+    from .c05 import _scene
+    opts = []
+    for kd in ["sphere", "layered", "cluster_mie", "cluster_ms", "spheroid", "cylinder"]:
+        pol = st.just([1.0, 0.0]) if kd in ("spheroid", "cylinder") else None
+        opts.append(st.fixed_dictionaries({"o": gen.optics(True, pol=pol), "det": gen.point_detector(8), "sc": _scene(kd)}))
+    return st.tuples(st.one_of(*opts), st.integers(0, 2 ** 31 - 1), st.sampled_from(["holo", "field", "intensity", "scat_matrix"])).map(
+        lambda t: dict(t[0], seed=t[1], what=t[2]))
+
+
+def run_points(case):
+    """a value at a location does not depend on which other locations accompany it, nor on their order."""
+    import holopy as hp
+    from holopy.scattering import calc_holo, calc_field, calc_intensity, calc_scat_matrix
+    o, det, sc = case["o"], case["det"], case["sc"]
+    unit = o["wl"] / o["nm"]
+    s, th, info = gen.build_scene(sc, o, det)
+    P = gen.detector_points_xyz(det, unit)
+    what = case["what"]
+    if what == "scat_matrix" and sc["th"]["t"] == "mie" and sc["kind"] == "cluster":
+        what = "field"
+    kw = gen.optics_kwargs(o)
+    labels = [gen.scene_label(sc), what, "z_varies" if len(set(P[:, 2].tolist())) > 1 else "z_const"]
+
+    def calc(pts):
+        d = hp.detector_points(x=pts[:, 0], y=pts[:, 1], z=pts[:, 2])
+        if what == "holo":
+            return calc_holo(d, s, theory=th, **kw).values
+        if what == "field":
+            return calc_field(d, s, theory=th, **kw).transpose("point", "vector").values
+        if what == "intensity":
+            return calc_intensity(d, s, theory=th, **kw).values
+        return calc_scat_matrix(d, s, o["nm"], o["wl"], theory=th).transpose("point", "E_out", "E_in").values
+    try:
+        full = calc(P)
+        rng = np.random.RandomState(case["seed"] % (2 ** 31))
+        perm = rng.permutation(len(P))
+        shuffled = calc(P[perm])
+        singles = np.array([calc(P[i:i + 1])[0] for i in range(len(P))])
+    except Exception as e:
+        if type(e).__name__ == "MultisphereFailure":
+            return Outcome(None, False, labels + ["MultisphereFailure"], skipped=True)
+        raise
+    if not np.array_equal(shuffled, full[perm]):
+        return Outcome(failure("depends_on_list_order", "values change by %.3g when the same points are listed in another order" % np.abs(shuffled - full[perm]).max(),
+                               what=what), True, labels)
+    if not np.array_equal(singles, full):
+        return Outcome(failure("depends_on_other_points", "a point evaluated alone differs by %.3g from its value inside the list" % np.abs(singles - full).max(),
+                               what=what), True, labels)
+    return Outcome(None, len(P) >= 2 and len(set(P[:, 2].tolist())) > 1, labels)
+
+
 SUBCHECKS = [
+    Sub("point_lists_any_z_any_order", strat_points, run_points, 1200, 20000,
+        "1-8 explicit detector points with individually drawn z (not a plane) for Mie/layered/Mie superposition/"
+        "Multisphere/Tmatrix; hologram, field, intensity or scattering matrix: the list evaluated in a shuffled order and "
+        "every point evaluated alone give bit-identical values; non-trivial = >=2 points with differing z",
+        tolerances={"equality": "bitwise"}),
     Sub("representations_agree", strat_repr, run_repr, 1600, 30000,
         "grid (1..9 per side incl. 1xN, odd, anisotropic, shifted origin, z!=0) vs the same positions as a shuffled "
         "point list, an isel crop, a subimage crop, the crop of the result, and a random pixel subset (1..all, seeded) "
